@@ -54,7 +54,7 @@ FINDINGS = set(json.loads(os.environ.get('PYVC_FINDINGS', '[]')))
 
 
 def t_daily_futures(h):
-    w = common.futures_world(h, symbols=('BTC-USDT', 'ETH-USDT'), mode='cross')
+    w = common.futures_world(h, symbols=('BTC-USDT', 'ETH-USDT'), mode=common.any_mode(h))
     ps = []
     for s in ('BTC-USDT', 'ETH-USDT'):
         p = w.positions[s]
